@@ -5,6 +5,7 @@ package frontend
 import (
 	"github.com/tetratelabs/wazero/internal/engine/interpreter"
 	"github.com/tetratelabs/wazero/internal/engine/wazevo/wazevoapi"
+	"github.com/tetratelabs/wazero/internal/leb128"
 	"github.com/tetratelabs/wazero/internal/verifrt"
 )
 
@@ -172,5 +173,40 @@ func init() {
 //verif:opts split=prog:71
 func VerifC01_T1() {
 	p := vT1[verifrt.Choose("prog", len(vT1))]
+	vCompare(&p)
+}
+
+// T1c: binary integer instructions with a CONSTANT right (and left) operand: what constant folding, immediate operand
+// selection and strength reduction see.
+var vT1c = []vProgram{}
+
+func i64const(v int64) []byte { return append([]byte{0x42}, leb128.EncodeInt64(v)...) }
+
+func init() {
+	c32 := []int32{0, 1, -1, 2, 31, 32, 0x7fffffff, -0x80000000}
+	for _, op := range []byte{0x6a, 0x6b, 0x6c, 0x6d, 0x6e, 0x6f, 0x70, 0x71, 0x72, 0x73, 0x74, 0x75, 0x76, 0x77, 0x78, 0x48, 0x49} {
+		for _, c := range c32 {
+			vT1c = append(vT1c, vProgram{name: "i32.op-const", params: []byte{i32}, results: []byte{i32}, body: cat(lg(0), i32const(c), []byte{op})})
+		}
+		vT1c = append(vT1c, vProgram{name: "i32.const-op", params: []byte{i32}, results: []byte{i32}, body: cat(i32const(0), lg(0), []byte{op})})
+	}
+	c64 := []int64{0, 1, -1, 64, 0x7fffffff, 0x80000000, -0x8000000000000000}
+	for _, op := range []byte{0x7c, 0x7d, 0x7e, 0x7f, 0x80, 0x81, 0x82, 0x86, 0x87, 0x88, 0x89} {
+		for _, c := range c64 {
+			vT1c = append(vT1c, vProgram{name: "i64.op-const", params: []byte{i64}, results: []byte{i64}, body: cat(lg(0), i64const(c), []byte{op})})
+		}
+	}
+}
+
+// VerifC01_T1c: constant-operand programs: optimised wazevo SSA == interpreter for all values of the other operand.
+//verif:opts split=part:8
+func VerifC01_T1c() {
+	part := verifrt.Choose("part", 8)
+	n := (len(vT1c) + 7) / 8
+	i := part*n + verifrt.Choose("prog", n)
+	if i >= len(vT1c) {
+		verifrt.Assume(false)
+	}
+	p := vT1c[i]
 	vCompare(&p)
 }
